@@ -13,9 +13,13 @@ import gen_insp
 sys.path.insert(0, os.path.dirname(os.path.dirname(os.path.abspath(__file__))))
 import insp_obs
 
+import os
 ID = 'C01'
 GEN = [('Gen/Insp_Consts.v', gen_insp.generate), ('Gen/Insp_Code.v', gen_insp.generate_code)]
 EQUIV_FILES = ['Proofs/Insp_Equiv.v']
+# further theorem files are picked up when present (VMDK / VHDX refinement, wrapper verdict)
+THEOREM_FILES = ['Properties/C01.v'] + [f for f in ('Properties/C01_Vmdk.v', 'Properties/C01_Vhdx.v', 'Properties/C01_Wrapper.v')
+                                        if os.path.exists(os.path.join(os.path.dirname(os.path.dirname(os.path.dirname(os.path.abspath(__file__)))), 'coq', f))]
 EXTRACT = 'Extract/Insp_x.v'
 FORMATS = ['raw', 'qcow2', 'vhd', 'vhdx', 'vmdk', 'vdi', 'qed', 'iso', 'gpt', 'luks']
 KI = 1024
